@@ -61,6 +61,11 @@ CHECKS = {
    text='Round trip: TLC-enumerated universe circuits over all 18 types (labels drawn from an identifier alphabet with keyword-like labels, non-topological storage, repeated outputs) and random circuits are formatted and re-parsed (string and file); TLC compares gates/operand order, input order and output order. Parser fidelity: line records of such netlists in a permuted order (use before definition) with comments, blank lines, BUFF/vdd aliases, random letter case and spacing are rendered to text and parsed; TLC compares the parsed projection and its truth table with Bench.Denote(doc).',
    note='Trusted: TLC, Bench.Denote, the 20-line renderer of token records to text. Text-level fidelity is judged through spec-level meaning; the specification is not a lexer (least natural fit of the technique). Tabs, trailing comments and a space between a keyword and "(" are not generated.',
    tech='TLA+ denotation of bench documents; recorded parse / print results validated by TLC'),
+
+ 'C16': dict(cat='model_checking', ref='5 (C16)',
+   text='encode_circuit / decode_circuit on TLC-enumerated universes: in-format circuits (14 types, format arities, 0-3 inputs, zero outputs, shuffled storage) must encode and decode; circuits with n-ary gates, L*/R* types or operand-less constants must raise a codec error or round-trip. Every produced byte string is decoded twice - by decode_circuit and by the independent TLA+ decoder Codec.DecodeBytes written from the documented format - and TLC compares counts, output truth tables and the bag of gate truth tables with the original. CircuitsDatabase add/save/open/get_by_label, BitWriter/BitReader and the binary dictionary writer/reader (non-ASCII keys, boundaries, every truncation, trailing bytes) are judged as inverses.',
+   note='Trusted: TLC, Codec.tla (format as documented; constants carry two ignored operands as in the repository tests), recorder. Byte-level fidelity is judged through decoded meaning - the least natural fit of the technique.',
+   tech='independent TLA+ decoder of the documented binary format evaluated by TLC on bytes recorded from cirbo; TLC-enumerated circuits'),
 }
 PENDING = 'check not built yet in this round (work in progress; see DESIGN.md section 5)'
 m = {
